@@ -3,10 +3,13 @@ package c05
 import (
 	"encoding/json"
 	"fmt"
+	"os"
+	"regexp"
 	"sort"
 	"strings"
 	"unicode/utf8"
 
+	"github.com/influxdata/kapacitor/pipeline"
 	"github.com/influxdata/kapacitor/tick/ast"
 	"github.com/influxdata/kapacitor/tick/stateful"
 
@@ -482,6 +485,215 @@ func commentCases() [][]string {
 	return cases
 }
 
+// ---- systematic JSON field variants ----
+// Base documents are marshalled real ASTs / pipelines; for EVERY field of EVERY object in them the field is
+// set to null / removed / given each wrong JSON type / emptied / replaced by bogus or wrong-kind nodes.
+
+var jsonLambdaSources = []string{
+	`"host" =~ /a.*/ AND "v" > 1`, `"host" !~ /b/ OR !"b"`, `-"v" + 2 * 3 - 1 / 1 % 2 < 10 AND "f" >= 1.5 OR "f" <= 0.5`,
+	`if("v" == 1, 'x', 'y') != 'x' AND strLength("s") > 2`, `"d" > 1s AND "d" < 2h`, `TRUE AND !FALSE`, `sigma("f") > 3.0`,
+	`regexReplace("s", /b/, 'x') == 'axc'`, `"host" == 'a' AND ("s" =~ /^a/ OR "s" == '')`, `count() > 0`, `int("f") == 1 AND float("v") == 1.0`,
+}
+var jsonExtraProgramDocs = []string{
+	`{"typeOf":"program","nodes":[{"typeOf":"comment","comments":["a","b"]},{"typeOf":"star"}]}`,
+}
+
+var jsonProgramSources = []string{
+	"dbrp \"db\".\"rp\"\nvar x = 1\nvar y string\nvar l = ['a', *]\n// c\nstream\n    |from()\n        .measurement('m')\n        .where(lambda: \"host\" =~ /a/)\n    |where(lambda: \"v\" > 0)\n    |log()\n",
+	"var re = /a.*/\nvar d = 10s\nstream|from()|eval(lambda: -\"v\", lambda: !\"b\").as('a','b')|alert().crit(lambda: \"a\" < 0).topic('t')@sink()\n",
+}
+var jsonPipelineScripts = []string{
+	"stream|from().measurement('m').where(lambda: \"host\" =~ /a/)|where(lambda: \"v\" > 0 AND \"s\" =~ /b/)|log()",
+	"stream|from().measurement('m')|eval(lambda: \"v\" * 2, lambda: strLength(\"s\")).as('x','n')|stateCount(lambda: \"x\" > 1)|alert().crit(lambda: \"n\" > 0).warn(lambda: \"s\" !~ /z/).topic('jt')|log()",
+}
+
+var jsonVariantValues = []string{"null", "1", "-1.5", "\"\"", "\"x\"", "true", "[]", "{}", "[null]", "[1]", "{\"typeOf\":\"bogus\"}", "{\"typeOf\":\"star\"}",
+	"{\"typeOf\":\"regex\",\"regex\":null}", "{\"typeOf\":\"string\",\"literal\":\"x\"}", "{\"typeOf\":\"number\"}", "[{\"typeOf\":\"star\"},null]", "\"((\"", "\"=~\"", "\"+\""}
+
+// fieldVariants returns every document obtained from doc by rewriting ONE field of ONE object.
+func fieldVariants(doc string) []string {
+	var root interface{}
+	dec := json.NewDecoder(strings.NewReader(doc))
+	dec.UseNumber()
+	if err := dec.Decode(&root); err != nil {
+		return nil
+	}
+	type loc struct {
+		obj map[string]interface{}
+		key string
+	}
+	var locs []loc
+	var walk func(x interface{})
+	walk = func(x interface{}) {
+		switch t := x.(type) {
+		case map[string]interface{}:
+			ks := make([]string, 0, len(t))
+			for k := range t {
+				ks = append(ks, k)
+			}
+			sort.Strings(ks)
+			for _, k := range ks {
+				locs = append(locs, loc{t, k})
+				walk(t[k])
+			}
+		case []interface{}:
+			for _, e := range t {
+				walk(e)
+			}
+		}
+	}
+	walk(root)
+	var out []string
+	for _, l := range locs {
+		old, had := l.obj[l.key]
+		// missing
+		delete(l.obj, l.key)
+		if b, err := json.Marshal(root); err == nil {
+			out = append(out, string(b))
+		}
+		for _, v := range jsonVariantValues {
+			var repl interface{}
+			json.Unmarshal([]byte(v), &repl)
+			l.obj[l.key] = repl
+			if b, err := json.Marshal(root); err == nil {
+				out = append(out, string(b))
+			}
+		}
+		if had {
+			l.obj[l.key] = old
+		}
+	}
+	return out
+}
+
+// unmarshalFields parses tick/ast/node.go of the tree under test: typeOf tag -> fields its unmarshal reads.
+func unmarshalFields() map[string][]string {
+	repo := os.Getenv("VERIF_REPO")
+	if repo == "" {
+		repo = "/repo"
+	}
+	b, err := os.ReadFile(repo + "/tick/ast/node.go")
+	if err != nil {
+		return nil
+	}
+	res := map[string][]string{}
+	src := string(b)
+	reFn := regexp.MustCompile(`(?s)func \([a-z] \*(\w+)\) unmarshal\(props JSONNode\) error \{(.*?)\n\}\n`)
+	reTag := regexp.MustCompile(`CheckTypeOf\("(\w+)"\)`)
+	reFld := regexp.MustCompile(`props\.(\w+)\("(\w+)"\)`)
+	for _, m := range reFn.FindAllStringSubmatch(src, -1) {
+		tag := ""
+		if t := reTag.FindStringSubmatch(m[2]); t != nil {
+			tag = t[1]
+		} else if m[1] == "ChainNode" {
+			tag = "chain"
+		} else {
+			tag = "?" + m[1]
+		}
+		for _, f := range reFld.FindAllStringSubmatch(m[2], -1) {
+			if f[1] == "CheckTypeOf" {
+				continue
+			}
+			res[tag] = append(res[tag], f[2])
+		}
+	}
+	return res
+}
+
+func jsonCases() [][]string {
+	var cases [][]string
+	covered := map[string]bool{} // "tag.field" present in some base document
+	note := func(doc string) {
+		var root interface{}
+		json.Unmarshal([]byte(doc), &root)
+		var walk func(x interface{})
+		walk = func(x interface{}) {
+			switch t := x.(type) {
+			case map[string]interface{}:
+				if tag, ok := t["typeOf"].(string); ok {
+					for k := range t {
+						covered[tag+"."+k] = true
+					}
+				}
+				for _, v := range t {
+					walk(v)
+				}
+			case []interface{}:
+				for _, e := range t {
+					walk(e)
+				}
+			}
+		}
+		walk(root)
+	}
+	for _, l := range jsonLambdaSources {
+		n, err := ast.ParseLambda(l)
+		if err != nil {
+			continue
+		}
+		b, _ := json.Marshal(n)
+		note(string(b))
+		cases = append(cases, []string{"jsoneval lambda " + kit.Esc(string(b))})
+		for _, v := range fieldVariants(string(b)) {
+			cases = append(cases, []string{"jsoneval lambda " + kit.Esc(v)})
+		}
+	}
+	for _, s := range jsonProgramSources {
+		n, err := ast.Parse(s)
+		if err != nil {
+			continue
+		}
+		b, _ := json.Marshal(n)
+		note(string(b))
+		cases = append(cases, []string{"jsoneval program " + kit.Esc(string(b))})
+		for _, v := range fieldVariants(string(b)) {
+			cases = append(cases, []string{"jsoneval program " + kit.Esc(v)})
+		}
+	}
+	for _, d := range jsonExtraProgramDocs {
+		note(d)
+		cases = append(cases, []string{"jsoneval program " + kit.Esc(d)})
+		for _, v := range fieldVariants(d) {
+			cases = append(cases, []string{"jsoneval program " + kit.Esc(v)})
+		}
+	}
+	for _, s := range jsonPipelineScripts {
+		p, err := pipeline.CreatePipeline(s, pipeline.StreamEdge, stateful.NewScope(), deadman{}, nil)
+		if err != nil {
+			continue
+		}
+		b, err := json.Marshal(p)
+		if err != nil {
+			continue
+		}
+		note(string(b))
+		cases = append(cases, []string{"jsontask " + kit.Esc(string(b))})
+		for _, v := range fieldVariants(string(b)) {
+			cases = append(cases, []string{"jsontask " + kit.Esc(v)})
+		}
+	}
+	// fail closed: a field some unmarshal method reads that no base document contains is a coverage hole
+	uf := unmarshalFields()
+	var tags []string
+	for t := range uf {
+		tags = append(tags, t)
+	}
+	sort.Strings(tags)
+	for _, t := range tags {
+		for _, f := range uf[t] {
+			st := "covered"
+			if !covered[t+"."+f] {
+				st = "hole"
+			}
+			cases = append(cases, []string{"jsoncover " + kit.Esc(t) + " " + kit.Esc(f) + " " + st})
+		}
+	}
+	if len(uf) == 0 {
+		cases = append(cases, []string{"jsoncover % % hole"})
+	}
+	return cases
+}
+
 func lexLines(s string, kinds ...string) []string {
 	e := kit.Esc(s)
 	ls := []string{"lex " + e}
@@ -594,6 +806,13 @@ func generate(f kit.Flags) [][]string {
 
 	// (2c) directed comment cases (all of them, every run; sharded)
 	for i, c := range commentCases() {
+		if i%nshards == shard {
+			cases = append(cases, c)
+		}
+	}
+
+	// (2d) systematic JSON field variants, decoded AND formatted / compiled / evaluated / run as tasks (sharded)
+	for i, c := range jsonCases() {
 		if i%nshards == shard {
 			cases = append(cases, c)
 		}
